@@ -148,12 +148,17 @@ theorem foldC_own (w : Bool) : ∀ (obs : List CD.Obs) (mon mon' : Mon) (extra :
     specification, every callback invoked by the protocol layer is the one passed with the concluded request,
     and the callback list again mirrors outstanding ++ waiting -/
 theorem client_event_own (mon mon' : Mon) (e : CD.Ev) (obs : List CD.Obs)
-    (h : Mon.event mon e obs = some mon') (hs : sendShape e obs = true) (hns : ∀ id, e = .send id → True) :
+    (h0 : Mon.event mon e obs = some mon') (hs : sendShape e obs = true) (hns : ∀ id, e = .send id → True) :
     (clientLayer (pend mon) e obs).1 = pend mon' ∧ (clientLayer (pend mon) e obs).2.all ownDel = true := by
+  have h : Mon.eventCore mon e obs = some mon' := by
+    unfold Mon.event at h0
+    cases hc : Mon.eventCore mon e obs with
+    | none => simp [hc] at h0
+    | some m1 => simp only [hc] at h0; split at h0 <;> simp_all
   unfold clientLayer
   cases e with
   | send id =>
-    simp only [Mon.event] at h
+    simp only [Mon.eventCore] at h
     simp only [sendShape] at hs
     match obs, hs with
     | [.rejected id'], hs =>
@@ -171,37 +176,37 @@ theorem client_event_own (mon mon' : Mon) (e : CD.Ev) (obs : List CD.Obs)
       · have h1 := this.1; split at h1 <;> simpa [pend] using h1
       · simpa [ownDel] using this.2
   | reply id b =>
-    have := foldC_own _ obs mon mon' [] (by simpa [Mon.event] using h) (by simpa [sendShape] using hs)
+    have := foldC_own _ obs mon mon' [] (by simpa [Mon.eventCore] using h) (by simpa [sendShape] using hs)
     simp only [List.append_nil] at this; constructor
     · have h1 := this.1; split at h1 <;> simpa using h1
     · exact this.2
   | wait =>
-    have := foldC_own _ obs mon mon' [] (by simpa [Mon.event] using h) (by simpa [sendShape] using hs)
+    have := foldC_own _ obs mon mon' [] (by simpa [Mon.eventCore] using h) (by simpa [sendShape] using hs)
     simp only [List.append_nil] at this; constructor
     · have h1 := this.1; split at h1 <;> simpa using h1
     · exact this.2
   | disconnect =>
-    have := foldC_own _ obs { mon with paused := true } mon' [] (by simpa [Mon.event] using h) (by simpa [sendShape] using hs)
+    have := foldC_own _ obs { mon with paused := true } mon' [] (by simpa [Mon.eventCore] using h) (by simpa [sendShape] using hs)
     simp only [List.append_nil, pend] at this ⊢; constructor
     · have h1 := this.1; split at h1 <;> simpa using h1
     · exact this.2
   | reconnect =>
-    have := foldC_own _ obs { mon with paused := false } mon' [] (by simpa [Mon.event] using h) (by simpa [sendShape] using hs)
+    have := foldC_own _ obs { mon with paused := false } mon' [] (by simpa [Mon.eventCore] using h) (by simpa [sendShape] using hs)
     simp only [List.append_nil, pend] at this ⊢; constructor
     · have h1 := this.1; split at h1 <;> simpa using h1
     · exact this.2
   | writeFail b =>
-    have := foldC_own _ obs mon mon' [] (by simpa [Mon.event] using h) (by simpa [sendShape] using hs)
+    have := foldC_own _ obs mon mon' [] (by simpa [Mon.eventCore] using h) (by simpa [sendShape] using hs)
     simp only [List.append_nil] at this; constructor
     · have h1 := this.1; split at h1 <;> simpa using h1
     · exact this.2
   | stop =>
-    have := foldC_own _ obs mon mon' [] (by simpa [Mon.event] using h) (by simpa [sendShape] using hs)
+    have := foldC_own _ obs mon mon' [] (by simpa [Mon.eventCore] using h) (by simpa [sendShape] using hs)
     simp only [List.append_nil] at this; constructor
     · have h1 := this.1; split at h1 <;> simpa using h1
     · exact this.2
   | start =>
-    have := foldC_own _ obs { mon with paused := false } mon' [] (by simpa [Mon.event] using h) (by simpa [sendShape] using hs)
+    have := foldC_own _ obs { mon with paused := false } mon' [] (by simpa [Mon.eventCore] using h) (by simpa [sendShape] using hs)
     simp only [List.append_nil, pend] at this ⊢; constructor
     · have h1 := this.1; split at h1 <;> simpa using h1
     · exact this.2
